@@ -25,11 +25,37 @@ import (
 	"time"
 
 	"bsim/minimise"
+	"bsim/race"
 	"bsim/props"
 	"bsim/vm"
 )
 
 var verifDir = envOr("BSIM_VERIF", "/verif")
+
+var raceDir string
+var raceOnce sync.Once
+
+// raceEnv tells a -race child process where to write its reports (one file per pid).
+func raceEnv() []string {
+	if !race.Enabled {
+		return nil
+	}
+	raceOnce.Do(func() {
+		d, err := os.MkdirTemp(filepath.Join(verifDir, ".build"), "race-")
+		if err != nil {
+			d, _ = os.MkdirTemp("", "bsim-race-")
+		}
+		raceDir = d
+	})
+	base := filepath.Join(raceDir, "report")
+	return []string{"GORACE=halt_on_error=0 log_path=" + base, "BSIM_RACELOG=" + base}
+}
+
+func cleanupRace() {
+	if raceDir != "" {
+		os.RemoveAll(raceDir)
+	}
+}
 
 func envOr(k, d string) string {
 	if v := os.Getenv(k); v != "" {
@@ -45,13 +71,17 @@ func main() {
 	}
 	switch os.Args[1] {
 	case "check":
-		os.Exit(cmdCheck(os.Args[2:]))
+		rc := cmdCheck(os.Args[2:])
+		cleanupRace()
+		os.Exit(rc)
 	case "worker":
 		os.Exit(cmdWorker(os.Args[2:]))
 	case "exec":
 		os.Exit(cmdExec())
 	case "replay":
-		os.Exit(cmdReplay(os.Args[2:]))
+		rc := cmdReplay(os.Args[2:])
+		cleanupRace()
+		os.Exit(rc)
 	case "selftest":
 		os.Exit(cmdSelftest(os.Args[2:]))
 	case "gen":
@@ -114,6 +144,7 @@ func isolated(p *vm.Plan, trace bool) *vm.Result {
 	var stderr bytes.Buffer
 	cmd.Stderr = &stderr
 	cmd.Env = append(os.Environ(), "TZ=UTC", "GOMAXPROCS="+envOr("BSIM_GOMAXPROCS", "1"))
+	cmd.Env = append(cmd.Env, raceEnv()...)
 	if trace {
 		cmd.Env = append(cmd.Env, "BSIM_TRACE=1")
 	}
@@ -703,6 +734,7 @@ func spawnWorker(id, tier string, seed int64, from, to, stride int, cur string, 
 	// one OS thread per worker: inside a bubble at most one goroutine is runnable, and
 	// 16 workers already use every core (measured 4x faster than GOMAXPROCS=16)
 	cmd.Env = append(os.Environ(), "TZ=UTC", "GOMAXPROCS="+envOr("BSIM_GOMAXPROCS", "1"))
+	cmd.Env = append(cmd.Env, raceEnv()...)
 	if err := cmd.Start(); err != nil {
 		return from, err.Error(), true
 	}
